@@ -61,9 +61,10 @@ def locate(src, qualname, nparams=None):
     s = strip_comments(src)
     found = []
     for m in re.finditer(r'(?<![\w:])' + re.escape(qualname) + r'\s*\(', s):
-        # brace depth 0 <=> definition (calls live inside bodies)
+        # a definition starts at column 0 with its return type (calls live, indented, inside bodies)
         pre = s[:m.start()]
-        if pre.count('{') != pre.count('}'):
+        head = pre[pre.rfind('\n') + 1:]
+        if not re.match(r'^[A-Za-z_][\w:<>,*&\s]*$', head):
             continue
         po = m.end() - 1
         pc = match_close(s, po, '(', ')')
